@@ -606,7 +606,7 @@ pub fn cases(tier: Tier) -> Vec<Case> {
     for n in [9usize, 10, 11, 12, 16, 17, 24, 33, 101, 112, 130, 210] {
         for rule in 0..5u8 {
             for ctor in 0..2u8 {
-                for (rev, grid) in [(false, 0u8), (true, 0), (false, 1), (true, 2), (false, 3), (true, 4)] {
+                for (rev, grid) in [(false, 0u8), (true, 0), (false, 1), (true, 2), (false, 3), (true, 4), (false, 5)] {
                     if n > 40 && (rule % 2 == 1) != (ctor == 1) {
                         continue;
                     }
